@@ -354,7 +354,8 @@ fn decode_stun_message(bytes: &[u8]) -> Result<StunDecoded> {
             }
             0x0009 => {
                 if value.len() >= 4 {
-                    let code = (value[2] as u16) * 100 + value[3] as u16;
+                    // RFC 5389 §15.6: the class is the low three bits; the bits above are reserved
+                    let code = ((value[2] & 0x07) as u16) * 100 + value[3] as u16;
                     error_code = Some(code);
                 }
             }
